@@ -82,6 +82,7 @@ func (m *RWMutex) RUnlock() {
 }
 
 func (m *RWMutex) VerifBusy() bool { return m.m.Busy() }
+func (m *RWMutex) VerifHeld() bool { return m.m.Held() }
 
 type rlocker RWMutex
 
